@@ -44,6 +44,7 @@ public:
     buffer = 0;
     bufferStart = data;
     bufferEnd = data + length;
+    _capacity = 0;
   }
 
   operator const byte*() const {return bufferStart;}
